@@ -41,8 +41,11 @@ fn guarded(f: impl FnOnce() -> String) -> String {
 
 struct CountingLog(AtomicU64);
 impl<'a> Log for &'a CountingLog {
-    fn log_get(&self, _r: PlainRef) {
-        self.0.fetch_add(1, Ordering::SeqCst);
+    fn log_get(&self, r: PlainRef) {
+        // the helper objects (catalog 901–903, the object stream of the compressed layout 904) are not tree nodes
+        if r.id < 900 {
+            self.0.fetch_add(1, Ordering::SeqCst);
+        }
     }
 }
 
@@ -54,7 +57,23 @@ fn doc_with(bodies: &[String]) -> Vec<u8> {
     objs.push((n + 1, format!("<< /Type /Catalog /Pages {} 0 R >>", n + 2).into_bytes()));
     objs.push((n + 2, format!("<< /Type /Pages /Kids [{} 0 R] /Count 1 >>", n + 3).into_bytes()));
     objs.push((n + 3, format!("<< /Type /Page /Parent {} 0 R /MediaBox [0 0 1 1] >>", n + 2).into_bytes()));
-    build_doc(&objs, &format!("/Root {} 0 R", n + 1))
+    build_doc_as(&objs, &format!("/Root {} 0 R", n + 1), next_layout())
+}
+
+/// The layout of the documents of the graph streams changes from case to case (junk before the header,
+/// objects stored in an object stream): what the model says does not depend on it, so neither may the
+/// implementation.
+fn next_layout() -> Variant {
+    static TURN: AtomicU64 = AtomicU64::new(0);
+    const LAYOUTS: [Variant; 6] = [
+        PLAIN,
+        Variant { prefix: 13, compressed: false },
+        Variant { prefix: 0, compressed: true },
+        PLAIN,
+        Variant { prefix: 200, compressed: true },
+        Variant { prefix: 1019, compressed: false },
+    ];
+    LAYOUTS[(TURN.fetch_add(1, Ordering::SeqCst) % 6) as usize]
 }
 
 fn storage(bytes: Vec<u8>, tolerant: bool) -> Option<Storage<Vec<u8>, NoCache, NoCache, NoLog>> {
@@ -661,7 +680,7 @@ fn ap_case(objs: &[ApObj], k: u64) -> (String, String) {
     let req = format!("c14.ap {} {}", k, m.join(","));
     bodies.push((901, b"<< /Type /Catalog /Pages 902 0 R >>".to_vec()));
     bodies.push((902, b"<< /Type /Pages /Kids [] /Count 0 >>".to_vec()));
-    let bytes = build_doc(&bodies, "/Root 901 0 R");
+    let bytes = build_doc_as(&bodies, "/Root 901 0 R", next_layout());
     let imp = guarded(|| match storage(bytes, false) {
         None => "open-failed".into(),
         Some(s) => match AppearanceStreamEntry::from_primitive(Primitive::Reference(PlainRef { id: k, gen: 0 }), &s.resolver()) { Ok(_) => "ok".into(), Err(_) => "err".into() },
@@ -708,51 +727,99 @@ fn ap_stream(driver: &Driver, seed: u64, thorough: bool) -> Stream {
 // ---------------------------------------------------------------------------------------------------
 // c14.prev
 
+/// what the model is told about a /Prev value: a number the reader accepts (`p<n>`), or a section whose
+/// trailer cannot be used (`u`: the token is not a non-negative i32, so the dictionary or `as_usize` fails)
+fn prev_kind(pv: &Pv, val: Option<u64>) -> String {
+    match pv {
+        Pv::None => "e".into(),
+        _ => match val { Some(v) if v <= i32::MAX as u64 => format!("p{}", v), _ => "u".into() },
+    }
+}
+
+fn prev_case(prefix: usize, prevs: &[Pv], stream: bool, sx: &Pv) -> (String, String) {
+    let doc = prev_doc_at(prefix, prevs, stream, sx);
+    // a section is also found from the white space right in front of it (the reader skips it)
+    let mut entries: Vec<String> = vec![];
+    for k in 0..prevs.len() {
+        let kind = prev_kind(&prevs[k], doc.prev_val[k]);
+        let mut q = prefix + doc.sec_pos[k];
+        entries.push(format!("{}:{}", q, kind));
+        while q > 0 && matches!(doc.bytes[q - 1], 0 | 9 | 10 | 12 | 13 | 32) {
+            q -= 1;
+            entries.push(format!("{}:{}", q, kind));
+        }
+    }
+    // startxref: a usize or not
+    let sxm = match sx { Pv::Lit(t) => match t.parse::<u64>() { Ok(v) => v.to_string(), Err(_) => "x".into() }, _ => doc.startxref_val.map(|v| v.to_string()).unwrap_or("x".into()) };
+    let req = format!("c14.prev {} {} {} {}", prefix, sxm, doc.bytes.len(), join(&entries, ","));
+    let bytes = doc.bytes;
+    let imp = guarded(|| {
+        let mut s = match Storage::with_cache(bytes, opts(false), NoCache, NoCache, NoLog) { Ok(s) => s, Err(_) => return "open-failed".into() };
+        match s.load_storage_and_trailer() { Ok(_) => "ok".into(), Err(_) => "err".into() }
+    });
+    (req, imp)
+}
+
 fn prev_stream(driver: &Driver, seed: u64, thorough: bool) -> Stream {
     let mut st = Stream::new("c14.prev", true);
     let (mut reqs, mut imps) = (vec![], vec![]);
-    // sections 0..k; /Prev: none, section j, a position inside an object (unreadable), a position outside
-    let mut cases: Vec<(Vec<Option<u64>>, bool)> = vec![];
-    for k in 1..=3usize {
-        let per = k + 3; // none, sec 0..k-1, garbage, outside
-        for c in 0..per.pow(k as u32) {
-            let mut x = c;
-            let prevs: Vec<Option<u64>> = (0..k).map(|_| { let o = x % per; x /= per; if o == 0 { None } else { Some(o as u64 - 1) } }).collect();
-            cases.push((prevs.clone(), false));
-            if thorough || c % 2 == 0 {
-                cases.push((prevs, true));
+    let spacing = SECTION_SPACING as i64;
+    // exhaustive: k ≤ 3 sections, every /Prev ∈ {none, section j, a position inside an object, outside the
+    // file}; behind no junk, 1 byte, and exactly one / two section distances of junk
+    let prefixes: Vec<usize> = if thorough { vec![0, 1, 13, SECTION_SPACING, 2 * SECTION_SPACING, 1019] } else { vec![0, 13, SECTION_SPACING] };
+    for &px in &prefixes {
+        for k in 1..=3usize {
+            let per = k + 3;
+            for c in 0..per.pow(k as u32) {
+                let mut x = c;
+                let prevs: Vec<Pv> = (0..k).map(|_| { let o = x % per; x /= per; match o { 0 => Pv::None, o if o <= k => Pv::Sec(o - 1), o if o == k + 1 => Pv::Lit("16".into()), _ => Pv::Lit("999999999".into()) } }).collect();
+                let stream = (c + px) % 2 == 1;
+                if !thorough && px != 0 && k == 3 && c % 3 != 0 { continue; }
+                let (r, i) = prev_case(px, &prevs, stream, &Pv::Sec(0));
+                st.count(&format!("sections={} prefix={}", k, px));
+                reqs.push(r);
+                imps.push(i);
             }
         }
     }
-    for case in 0..(if thorough { 2_000 } else { 150 }) {
+    st.count(&format!("exhaustive chains up to 3 sections: {} cases", reqs.len()));
+    // random: longer chains, numbers in the wrong coordinate system, hostile startxref
+    for case in 0..(if thorough { 4_000 } else { 500 }) {
         let mut rng = Rng::derive(seed, "c14.prev", case);
-        let k = 4 + rng.usize(5);
-        let prevs: Vec<Option<u64>> = (0..k).map(|i| match rng.below(10) { 0 => None, 1 => Some(k as u64), 2 => Some(k as u64 + 1), 3 | 4 => Some(rng.below(k as u64)), _ => if i + 1 < k { Some(i as u64 + 1) } else { None } }).collect();
-        cases.push((prevs, rng.chance(1, 2)));
+        let px = *rng.pick(&[0usize, 1, 7, 13, 200, SECTION_SPACING, SECTION_SPACING, 2 * SECTION_SPACING, 3 * SECTION_SPACING, 1019]);
+        let pxi = px as i64;
+        let k = 1 + rng.usize(6);
+        let prevs: Vec<Pv> = (0..k).map(|i| match rng.below(14) {
+            0 => Pv::None,
+            1 => Pv::Lit("16".into()),
+            2 => Pv::Lit("999999999".into()),
+            3 => Pv::SecPlus(rng.usize(k), pxi),
+            4 => Pv::SecPlus(rng.usize(k), -pxi),
+            5 => Pv::SecPlus(rng.usize(k), spacing),
+            6 => Pv::SecPlus(rng.usize(k), -spacing),
+            7 => Pv::Lit(rng.pick(&["-1", "2147483647", "4294967295", "18446744073709551615", "0"]).to_string()),
+            8 | 9 => Pv::Sec(rng.usize(k)),
+            _ => if i + 1 < k { Pv::Sec(i + 1) } else { Pv::None },
+        }).collect();
+        let sx = match rng.below(10) {
+            0 => Pv::SecPlus(0, pxi),
+            1 => Pv::SecPlus(0, -pxi),
+            2 => Pv::Sec(rng.usize(k)),
+            3 => Pv::Lit(rng.pick(&["0", "16", "999999999", "18446744073709551615", "-1"]).to_string()),
+            _ => Pv::Sec(0),
+        };
+        st.count(&format!("random prefix={}", match px { 0 => "0", p if p % SECTION_SPACING == 0 => "k*spacing", _ => "other" }));
+        let (r, i) = prev_case(px, &prevs, rng.chance(1, 2), &sx);
+        reqs.push(r);
+        imps.push(i);
     }
-    for (prevs, stream) in cases {
-        let k = prevs.len() as u64;
-        // model positions: i = section i, k = unreadable, k+1.. = outside the table
-        let mut secs: Vec<String> = prevs.iter().map(|p| match p { None => "e".to_string(), Some(j) => format!("p{}", j) }).collect();
-        secs.push("u".into());
-        let req = format!("c14.prev 0 {}", secs.join(","));
-        let texts: Vec<Option<String>> = prevs.iter().map(|p| p.map(|j| if j < k { format!("@{}", j) } else if j == k { "0000000016".to_string() } else { "0999999999".to_string() })).collect();
-        let bytes = prev_doc(&texts, stream);
-        let imp = guarded(|| {
-            let mut s = match Storage::with_cache(bytes, opts(false), NoCache, NoCache, NoLog) { Ok(s) => s, Err(_) => return "open-failed".into() };
-            match s.load_storage_and_trailer() { Ok(_) => "ok".into(), Err(_) => "err".into() }
-        });
-        st.count(&format!("sections={} stream={}", k, stream));
-        reqs.push(req);
-        imps.push(imp);
-    }
-    let _ = seed;
     let resp = driver.ask(&reqs);
     for ((rq, m), i) in reqs.iter().zip(resp.iter()).zip(imps.iter()) {
         // the implementation does not tell how many sections it merged: compare the outcome class
         let mc = m.split(' ').next().unwrap_or("").to_string();
         st.count(&format!("outcome={}", mc));
-        st.case(rq, &mc, i, rq.contains('p'));
+        if &mc != i { st.count("DISAGREE"); }
+        st.case(rq, &mc, i, rq.contains(":p"));
     }
     st
 }
@@ -1061,6 +1128,13 @@ pub fn witness_docs() -> Vec<Planted> {
     out.push(Planted { frag: "xref-stream", desc: "witness:D34 W [0 0 0] with 2147483647 entries".into(), bytes: xref_stream_doc(["0", "0", "0"], Some("0 2147483647"), "5", [1, 4, 2], 0, None) });
     let spec = ObjStmSpec { n: "2".into(), first: "1".into(), header: "20 0 21 18446744073709551615 ".into(), body: b"11 [22] ".to_vec(), extends: None };
     out.push(Planted { frag: "objstm", desc: "witness:object stream offset 2^64-1".into(), bytes: objstm_doc(&spec, None, &[(20, 10, 0), (21, 10, 1)], None, None) });
+    // /Prev loops behind junk: the guard must compare in one coordinate system
+    for (px, stream) in [(13usize, false), (SECTION_SPACING, true), (1, false)] {
+        out.push(Planted { frag: "prev", desc: format!("witness:/Prev ring of three behind {} junk bytes stream={}", px, stream),
+            bytes: prev_doc_at(px, &[Pv::Sec(1), Pv::Sec(2), Pv::Sec(0)], stream, &Pv::Sec(0)).bytes });
+        out.push(Planted { frag: "prev", desc: format!("witness:/Prev self loop behind {} junk bytes stream={}", px, stream),
+            bytes: prev_doc_at(px, &[Pv::Sec(0)], stream, &Pv::Sec(0)).bytes });
+    }
     // open findings owned by other packages
     let pick = |f: Frag, choice: Vec<usize>, desc: &str| -> Planted {
         let mut p = f.instantiate(&choice);
